@@ -8,6 +8,20 @@ import traceback
 from . import vlib
 
 
+def _salvage(ctx):
+    """A machinery failure AFTER violations were already established (each judged against the specification) does not erase
+    them: self-tests and later stages are derived from recordings of the code under test and can go off the rails exactly
+    because that code is broken.  The violations are reported (exit 1); without any, it is exit 2."""
+    if ctx is not None and ctx.violations:
+        try:
+            if not ctx.cov["samples"]:
+                ctx.cov["samples"] = ["(run aborted by a machinery failure after violations were found)"]
+            return ctx.finish()
+        except Exception:  # noqa
+            traceback.print_exc()
+    return 2
+
+
 def main():
     ap = argparse.ArgumentParser()
     ap.add_argument("prop")
@@ -17,6 +31,7 @@ def main():
     seed = int(os.environ.get("VERIF_SEED", "0") or 0)
     os.chdir(vlib.VERIF)
     prop = a.prop.upper()
+    ctx = None
     try:
         vlib.ensure_built()
         vlib.bind_repo()
@@ -29,11 +44,11 @@ def main():
         rc = ctx.finish()
     except vlib.MachineryFailure as e:
         print(f"MACHINERY-FAILURE property={prop}: {e}")
-        rc = 2
+        rc = _salvage(ctx)
     except Exception:
         print(f"MACHINERY-FAILURE property={prop}: unexpected harness exception")
         traceback.print_exc()
-        rc = 2
+        rc = _salvage(ctx)
     finally:
         vlib.cleanup_work()
     sys.exit(rc)
